@@ -114,6 +114,11 @@ type Explorer struct {
 	OnTransition func(wk *Worker, n Node, op Op, res OpResult, pre, post sdk.Context, preModel, postModel any)
 	// OnState is called once per distinct state, with a context standing on that state (branch before mutating!).
 	OnState func(wk *Worker, n Node, ctx sdk.Context, model any)
+	// Revisit: OnState is ALSO called on every arrival at an already known state through another path (the
+	// differential "state reached from elsewhere" oracle): the store contents are identical by construction of the
+	// key, so any difference in behaviour comes from state the key cannot see (process-local caches and flags in the
+	// keepers), which the lock-step model judges exactly as on the first visit.
+	Revisit bool
 }
 
 type Worker struct {
@@ -208,6 +213,7 @@ func (x *Explorer) RunOn(worlds []*World) []Node {
 	frontier := []Node{{Path: nil}}
 	all := []Node{{Path: nil}}
 	var transitions, states int64 = 0, 1
+	var revisits int64
 	var stopped int32
 	maxDepthDone := 0
 	for depth := 0; len(frontier) > 0; depth++ {
@@ -262,6 +268,9 @@ func (x *Explorer) RunOn(worlds []*World) []Node {
 							nextMu.Lock()
 							next = append(next, Node{Path: p})
 							nextMu.Unlock()
+						} else if x.Revisit && x.OnState != nil {
+							atomic.AddInt64(&revisits, 1)
+							x.OnState(wk, Node{Path: append(append([]int{}, n.Path...), oi)}, child, m2)
 						}
 					}
 				}
@@ -282,6 +291,9 @@ func (x *Explorer) RunOn(worlds []*World) []Node {
 	}
 	x.Rep.Count("states", states)
 	x.Rep.Count("transitions", transitions)
+	if x.Revisit {
+		x.Rep.Count("revisits_probed", revisits)
+	}
 	x.Rep.Extra["bfs_depth_completed"] = maxDepthDone
 	x.Rep.Extra["prefix_alphabet_size"] = len(x.Prefix)
 	x.Rep.Extra["workers"] = len(worlds)
